@@ -305,7 +305,7 @@ func (w *World) analyse(rec *ScanRecord) {
 					gr := rec.Groups[g]
 					gr.Processed = true
 					gr.Start = e.T
-					if t0, ok := w.LockT0[g]; ok && e.T.Sub(t0) < w.Cfg.Groups[g].Opts.ScaleUpCoolDownPeriodDuration() {
+					if t0, ok := w.LockT0[g]; ok && e.T.Sub(t0) < Dur(w.Cfg.Groups[g].Opts.ScaleUpCoolDownPeriod) {
 						gr.Locked = true
 					}
 				}
@@ -526,7 +526,7 @@ func (rec *ScanRecord) SituationKey(w *World) string {
 			age := "-"
 			if ts, ok := ref.TaintTime(n); ok {
 				d := gr.Start.Sub(ts)
-				soft, hard := o.SoftDeleteGracePeriodDuration(), o.HardDeleteGracePeriodDuration()
+				soft, hard := Dur(o.SoftDeleteGracePeriod), Dur(o.HardDeleteGracePeriod)
 				switch {
 				case d < 0:
 					age = "f"
